@@ -117,6 +117,40 @@ def sortBy {α : Type} (le : α → α → Bool) : List α → List α
   | [] => []
   | x :: xs => insertBy le x (sortBy le xs)
 
+/-! ## `ircutils.hostmaskPatternsIntersect` (the row-by-row table of the source) -/
+
+/-- `ircutils._hostmaskPatternClass` -/
+def patClass (c : Char) : Char :=
+  if c = '[' || c = '{' then '{'
+  else if c = '}' || c = ']' then '}'
+  else if c = '|' || c = '\\' then '|'
+  else if c = '^' || c = '~' then '^'
+  else if 'A' ≤ c && c ≤ 'Z' then Char.ofNat (c.toNat + 32)
+  else c
+
+/-- the row for `i = len(p)`: `q[j:]` consists of `*` only -/
+def patRowEnd : Str → List Bool
+  | [] => [true]
+  | b :: q => let r := patRowEnd q; (b = '*' && r.headD false) :: r
+
+/-- the row for `p[i] = a` from the row `below` (for `p[i+1:]`) -/
+def patRowStep (a : Char) : Str → List Bool → List Bool
+  | [], below => [a = '*' && below.headD false]
+  | b :: q, below =>
+    let r := patRowStep a q below.tail
+    let right := r.headD false
+    let down := below.headD false
+    let diag := below.tail.headD false
+    let v :=
+      if a = '*' then down || right || diag
+      else if b = '*' then right || down || diag
+      else if a = '?' || b = '?' then diag
+      else diag && patClass a = patClass b
+    v :: r
+
+/-- some string is matched by both patterns -/
+def patIntersect (p q : Str) : Bool := (p.foldr (fun a below => patRowStep a q below) (patRowEnd q)).headD false
+
 /-! ## Python dict as an association list in insertion order -/
 
 def dictSet {α β : Type} [DecidableEq α] (k : α) (v : β) (l : List (α × β)) : List (α × β) :=
